@@ -4,6 +4,7 @@ import (
 	"encoding/json"
 	"fmt"
 	"strings"
+	"unicode/utf8"
 
 	"golang.org/x/net/html"
 
@@ -43,6 +44,14 @@ func wellFormedDataAttr(k string) bool {
 	if strings.HasPrefix(rest, "xml") && len(rest) > 3 {
 		return false
 	}
+	if !utf8.ValidString(rest) {
+		return false
+	}
+	for _, r := range rest {
+		if r >= 0x80 && !xmlNameCharBeyondASCII(r) {
+			return false
+		}
+	}
 	for i := 0; i < len(rest); i++ {
 		// XML-compatible and without upper case (HTML "custom data attribute"): of the ASCII range only lower-case
 		// letters, digits, '.', '-' and '_' are name characters (':' is excluded by HTML)
@@ -52,6 +61,17 @@ func wellFormedDataAttr(k string) bool {
 		}
 	}
 	return true
+}
+
+// xmlNameCharBeyondASCII: XML 1.0 (fifth edition) production [4a] NameChar, the part above U+007F.
+func xmlNameCharBeyondASCII(r rune) bool {
+	for _, rg := range [][2]rune{{0xB7, 0xB7}, {0xC0, 0xD6}, {0xD8, 0xF6}, {0xF8, 0x37D}, {0x37F, 0x1FFF}, {0x200C, 0x200D}, {0x203F, 0x2040},
+		{0x2070, 0x218F}, {0x2C00, 0x2FEF}, {0x3001, 0xD7FF}, {0xF900, 0xFDCF}, {0xFDF0, 0xFFFD}, {0x10000, 0xEFFFF}, {0x300, 0x36F}} {
+		if r >= rg[0] && r <= rg[1] {
+			return true
+		}
+	}
+	return false
 }
 
 func isURLAttr(el, key string) bool {
@@ -216,7 +236,7 @@ func judgeC02(v *spec.View, in, out string, dom bool) (sig, what string) {
 var c02Attrs = []string{
 	` id=abc`, ` id=123`, ` id="a b"`, ` id=""`, ` id`, ` ID=abc`, ` id='abc'`, ` id="&#97;bc"`, ` id="&amp;#97;bc"`, ` id="abc&#10;x"`,
 	` title=t`, ` title="<x>"`, ` onclick=x`, ` name=n`, ` name=7`,
-	` data-x=1`, ` data-xmlfoo=1`, ` data-x;=1`, ` data-data-;x=1`, ` data-a"b<c=1`, ` data-a'b=1`, ` data-a:b=1`, ` data-a.b_c-d=1`, ` data-=1`, ` data-data-xmlq=1`, ` xdata-y=1`, ` aria-data-x=1`,
+	` data-x=1`, ` data-xmlfoo=1`, ` data-x;=1`, ` data-data-;x=1`, ` data-a"b<c=1`, ` data-a'b=1`, ` data-a:b=1`, ` data-a.b_c-d=1`, " data-\u0085=1", " data-a\u00a0b=1", " data-\u00e9=1", " data-\u2028=1", " data-\xff=1", ` data-=1`, ` data-data-xmlq=1`, ` xdata-y=1`, ` aria-data-x=1`,
 	` style="color:red"`, ` href="javascript:x"`, ` href=/ok`, ` lang=en`,
 	// values that match the element patterns of the policies (a rule must judge values by its value pattern, not by
 	// whatever other regexp the builder had at hand)
